@@ -18,9 +18,10 @@ ARITH = ('+', '-', '*', '/')
 CMPS = ('=', '<>', '<', '>', '<=', '>=')
 OPS = ARITH + ('&',) + CMPS
 
-# delivery-channel differential (core.Env): of every 2 evaluations that bind variables, one is repeated with the
-# values handed in by the cell/range listeners and one with the values returned by custom functions; outcomes must agree
-CHANNELS = 2
+# delivery-channel and host-type differential (core.Env): of every 3 evaluations that bind variables, one is repeated with the
+# values handed in by the cell/range listeners, one with the values returned by custom functions and one with every value an
+# instance of a trivial subclass of its type (numpy.float64, IntEnum, rich-text str ... are such); outcomes must agree
+CHANNELS = 3
 
 BOUNDS = {
     'quick': '72 error producers (incl. fresh error objects returned by a custom function or supplied as variable / cell value) (3 operator-made, 4 returned by built-ins, 3 raised by built-ins, 8 raised + 8 returned '
